@@ -25,6 +25,7 @@ RULE = ('texts: grammar scripts and char soup sprinkled with non-ASCII '
         'io.StringIO; x parse (tree dump), parsestream, split, format with '
         'random valid options. CLI: sqlparse.cli.main in-process (file and '
         '"-" input, stdout and -o output, every flag the parser accepts, '
+        'now and then 5-40 KB inputs full of multi-byte characters, '
         'every encoding) and `python -m sqlparse` subprocesses for a sample; '
         'expected = format(decoded text, mapped options). '
         'distinct_nontrivial = distinct (form/encoding/channel, option set) '
@@ -220,6 +221,23 @@ def run_cli_inprocess(argv, stdin_bytes):
     return rc, out.getvalue(), err.getvalue()
 
 
+def big_text(rng, src):
+    """8-40 KB of statements rich in multi-byte characters (block-wise
+    readers / decoders meet characters straddling their buffer ends)."""
+    parts = []
+    size = 0
+    target = rng.choice([5000, 9000, 17000, 40000])
+    pad = rng.choice(['', 'x', 'xy', 'xyz'])      # shift the byte alignment
+    parts.append('-- ' + pad + '\n')
+    while size < target:
+        t = "insert into t values ('%s', '%s');\n" % (
+            rng.choice(['é', '中文', '😀', 'Üß', 'naïve', '€']) * rng.randint(
+                1, 9), rng.choice(['x', 'ä', '日本']))
+        parts.append(t)
+        size += len(t.encode('utf-8'))
+    return ''.join(parts)
+
+
 def check_cli(ctx, text, tmpdir, subprocess_too):
     rec, rng = ctx.rec, ctx.rng
     rec.case()
@@ -319,7 +337,10 @@ def shard(ctx):
         while ctx.running():
             k += 1
             text = make_text(rng, src)
-            if k % 3 == 0:
+            if k % 45 == 0:
+                check_cli(ctx, big_text(rng, src), tmpdir,
+                          subprocess_too=(k % 90 == 0))
+            elif k % 3 == 0:
                 check_cli(ctx, text, tmpdir, subprocess_too=(k % 60 == 0))
             else:
                 check_forms(ctx, text, options.any_valid_options(rng))
